@@ -6,7 +6,13 @@
        post      : a blocked waiter, if any, is granted the permit (it leaves wq), else sv + 1
        try_wait  : sv > 0 ? (sv - 1, true) : false
        wait      : sv > 0 ? sv - 1 : join wq and block until granted
-       wait_timeout : like wait; a blocked waiter that is NOT granted may give up (`Fire`): it leaves wq, false
+       wait_timeout : like wait; a blocked waiter may give up (`Fire r false`, the park timed out): one that was NOT
+                      granted leaves wq; one that WAS granted (the unpark lost the race against the timer: park still
+                      answers Timeout) gives the permit back by a post - the code's `if cur.is_unparked() { self.post() }` -
+                      and leaves; both answer false
+       cancel       : `Fire r true`: the park of a blocked waiter (timed or not) answers Canceled; same two cases, then the
+                      Cancel panic leaves the call (RCancel).  (Only coroutine waiters can be cancelled; the model does not
+                      record the kind of the caller and allows it for every blocked waiter: an over-approximation.)
        get_value : sv
    so sv > 0 implies that nobody is blocked, and a permit is never lost or duplicated.
 
@@ -40,7 +46,7 @@ Definition val := (nat * nat)%type.
 
 Inductive rpc := YIdle | Y0 | Y1 | Y0b | W0 | WB | Y2 | Y3s | Y4s | Y3n | Y4n | XA | X0 | X1 | RPanic.
 Inductive tctx := CTry | CFirst.
-Inductive res := RNone | ROk (v : val) | REmpty | RDisc | RTimeout.
+Inductive res := RNone | ROk (v : val) | REmpty | RDisc | RTimeout | RCancel.
 Inductive spc := SIdle | M0 | M1 | M2 | MA | MS | G0 | G1.
 Inductive hst := Unborn | Alive | Dead.
 
@@ -79,7 +85,7 @@ Definition post_Rv (s : st) (rvm : nat -> rrec) := match wq s with [] => rvm | w
 Definition post_hold (s : st) (h : list nat) := match wq s with [] => h | w :: _ => w :: h end.
 
 Inductive action :=
-  | TryRecv (r : nat) | Recv (r : nat) (timed : bool) | CloneRx (r r2 : nat) | DropRx (r : nat) | RStep (r : nat) | Fire (r : nat)
+  | TryRecv (r : nat) | Recv (r : nat) (timed : bool) | CloneRx (r r2 : nat) | DropRx (r : nat) | RStep (r : nat) | Fire (r : nat) (cancel : bool)
   | Send (a : nat) | CloneTx (a b : nat) | DropTx (a : nat) | SStep (a : nat)
   | Free.
 
@@ -107,10 +113,14 @@ Definition step (s : st) (ac : action) : option st :=
       if r_ready x
       then Some (mk (q s) (sv s) (wq s) (txp s) (rxp s) (upd (Rv s) r (r_call x X0 CTry false false (rto x))) (Sd s) (sent s) (rlog s) (drpd s) (hold s) (pend s) (rep s) (dropper s) (livet s) (liver s) (freed s))
       else None
-  | Fire r => let x := Rv s r in
+  | Fire r c => let x := Rv s r in
       match rp x with
-      | WB => if rtimed x && negb (rgr x)
-              then Some (mk (q s) (sv s) (rm r (wq s)) (txp s) (rxp s) (upd (Rv s) r (r_ret x RTimeout)) (Sd s) (sent s) (rlog s) (drpd s) (hold s) (pend s) (rep s) (dropper s) (livet s) (liver s) (freed s))
+      | WB => if c || rtimed x
+              then (if rgr x
+                    then (* the permit had been handed over: the waiter gives it back (post) before it leaves *)
+                         let rvm := upd (Rv s) r (r_ret x (if c then RCancel else RTimeout)) in
+                         Some (mk (q s) (post_sv s) (post_wq s) (txp s) (rxp s) (post_Rv s rvm) (Sd s) (sent s) (rlog s) (drpd s) (post_hold s (rm r (hold s))) (pend s) (rep s) (dropper s) (livet s) (liver s) (freed s))
+                    else Some (mk (q s) (sv s) (rm r (wq s)) (txp s) (rxp s) (upd (Rv s) r (r_ret x (if c then RCancel else RTimeout))) (Sd s) (sent s) (rlog s) (drpd s) (hold s) (pend s) (rep s) (dropper s) (livet s) (liver s) (freed s)))
               else None
       | _ => None end
   | RStep r => let x := Rv s r in
